@@ -52,6 +52,19 @@ def Decorated(state, features, *, k=1, m=1):  # pylint: disable=invalid-name,fun
     return state * m + features
 
 
+@wrap.Actor.train
+def DecoratedList(state, features, labels, *, k=1, m=1):  # pylint: disable=invalid-name
+    """The same arithmetic with a MUTABLE state updated in place (as user train functions commonly do)."""
+    state = state if state is not None else [0]
+    state[0] += k * features + labels
+    return state
+
+
+@DecoratedList.apply
+def DecoratedList(state, features, *, k=1, m=1):  # pylint: disable=invalid-name,function-redefined
+    return state[0] * m + features
+
+
 class Origin:
     """A third-party style estimator."""
 
@@ -83,7 +96,7 @@ def StatelessFn(features, *, m=1):  # pylint: disable=invalid-name
     return features * m
 
 
-FLAVOURS = {'native': Native, 'codec': NativeCodec, 'decorated': Decorated, 'wrapped': Wrapped, 'wrapped_callable': WrappedCallable}
+FLAVOURS = {'native': Native, 'codec': NativeCodec, 'decorated': Decorated, 'decorated_list': DecoratedList, 'wrapped': Wrapped, 'wrapped_callable': WrappedCallable}
 
 
 def observe(case):
@@ -94,8 +107,27 @@ def observe(case):
         if case.get('pickle_builder'):
             actor = cloudpickle.loads(cloudpickle.dumps(builder))()
         outs = []
+        shared = user.Apply().functor(builder).preset_state()     # ONE functor object executed again and again
         for op in case['ops']:
-            if op[0] == 'train':
+            if op[0] in ('functor', 'functor_empty'):
+                try:
+                    outs.append(int(shared.execute(actor.get_state() if op[0] == 'functor' else b'', op[1])))
+                except RuntimeError:
+                    outs.append('untrained')
+            elif op[0] == 'fork_train':
+                # the exported state loaded into two rebuilt actors; the first trains on - the second must not notice
+                _, x, y, z = op
+                state = actor.get_state()
+                try:
+                    first = builder()
+                    first.set_state(state)
+                    first.train(x, y)
+                    second = builder()
+                    second.set_state(state)
+                    outs.append(int(second.apply(z)))
+                except RuntimeError:
+                    outs.append('untrained')
+            elif op[0] == 'train':
                 actor.train(op[1], op[2])
                 outs.append('silent')
             elif op[0] == 'apply':
